@@ -671,6 +671,20 @@ pub fn sr(r: Register) -> SR {
 /// Builds the mirror machine: same regions, same bytes, same permissions, same registers.
 pub fn build_mirror(t: &Trial, pre_mem: &[Vec<u8>]) -> Result<Axecutor, String> {
     let mut ax = Axecutor::new(&pre_mem[R_CODE], CODE, t.rip).map_err(|e| err_first_line(&e))?;
+    // In a quarter of the trials (a function of the trial, so replays agree) a few EMPTY areas exist before the
+    // regions are created, at the addresses this trial is about to touch (stack slots, steered operands). An empty
+    // area occupies no address; paging has no counterpart for it, so the CPU side is unaffected by construction.
+    if (t.gpr[4] ^ t.gpr[0].rotate_left(17) ^ t.gpr[3].rotate_left(31) ^ t.flags) % 4 == 0 {
+        let mut cands = vec![t.gpr[4], t.gpr[4].wrapping_sub(8), t.gpr[4].wrapping_add(8), t.gpr[4].wrapping_sub(2)];
+        for (a, _) in &t.patches {
+            cands.push(*a);
+        }
+        for a in cands {
+            if region_of(a).is_some() && region_of(a) != Some(R_CODE) && !REGIONS.iter().any(|r| r.start == a) {
+                let _ = ax.mem_init_zero(a, 0);
+            }
+        }
+    }
     for (i, r) in REGIONS.iter().enumerate() {
         if i == R_CODE {
             continue;
